@@ -789,3 +789,498 @@ Definition sample_history_check : bool :=
   | Some L => bool_decide (encode (to_encoding_obj (λ _, []) L) = encode sample_expected)
   | None => false
   end.
+
+(* ================================================================== *)
+(* ROUND 2: the net-change statement on the getters of the finalised StateDB *)
+
+(* the getters, in terms of the views used below *)
+Lemma getters_view j a k :
+  query_j j (QBalance a) = AN (a_bal (pre_data j a)) ∧ query_j j (QNonce a) = AN (a_nonce (pre_data j a))
+  ∧ query_j j (QCode a) = AN (a_code (pre_data j a)) ∧ query_j j (QState a k) = AN (view_state j a k).
+Proof. unfold pre_data, view_state. simpl. destruct (j_objs j !! a); done. Qed.
+
+(* Finalise, per address *)
+Lemma fin_objs r j a :
+  j_objs (finalise r j) !! a =
+    match j_objs j !! a with
+    | Some o => if bool_decide (a ∈ dom (j_muts j)) then fin_obj r o else Some o
+    | None => None
+    end.
+Proof.
+  unfold finalise, clear_internal. destruct j; rj; simpl. rewrite map_lookup_imap.
+  destruct (j_objs !! a); done.
+Qed.
+
+Lemma fin_db r j : j_db (finalise r j) = j_db j.
+Proof. unfold finalise, clear_internal. destruct j; rj; done. Qed.
+
+Lemma fin_destruct r j a :
+  a ∈ j_destruct (finalise r j) ↔
+  a ∈ j_destruct j ∨ ∃ o, j_objs j !! a = Some o ∧ a ∈ dom (j_muts j) ∧ fin_del r o = true.
+Proof.
+  unfold finalise, clear_internal. destruct j; rj; simpl. rewrite elem_of_union elem_of_dom.
+  split; (intros [H|H]; [by left|right]).
+  - destruct H as [o Ho]. apply map_filter_lookup_Some in Ho as [Ho Hp]. simpl in Hp.
+    apply Is_true_true, andb_true_iff in Hp as [Hp1 Hp2]. apply bool_decide_eq_true in Hp1. by exists o.
+  - destruct H as (o & Ho & Hd & Hf). exists o. apply map_filter_lookup_Some. split; [done|]. simpl.
+    apply Is_true_true, andb_true_iff. split; [by apply bool_decide_eq_true|done].
+Qed.
+
+Lemma in_muts_dom j a : in_muts j a = bool_decide (a ∈ dom (j_muts j)).
+Proof. unfold in_muts. apply bool_decide_ext. by rewrite elem_of_dom. Qed.
+
+(* account fields after Finalise = the value the loop compared with the stash *)
+Lemma fin_data s0 j r a :
+  Q s0 j →
+  (∀ m o, j_muts j !! a = Some m → j_objs j !! a = Some o →
+     pre_data (finalise r j) a = match fin_obj r o with Some o' => o_data o' | None => acct0 end)
+  ∧ (¬ (is_Some (j_muts j !! a) ∧ is_Some (j_objs j !! a)) → pre_data (finalise r j) a = pre_data s0 a).
+Proof.
+  intros Hq. split.
+  - intros m o Hm Ho. unfold pre_data. rewrite fin_objs Ho bool_decide_true; [by apply elem_of_dom|].
+    by destruct (fin_obj r o).
+  - intros Hn. unfold pre_data at 1. rewrite fin_objs.
+    destruct (j_objs j !! a) as [o|] eqn:Eo.
+    + case_bool_decide as Hd.
+      { apply elem_of_dom in Hd. destruct Hn. split; [done|by eexists]. }
+      apply not_elem_of_dom in Hd. simpl.
+      destruct (q_obj _ _ Hq a o Eo) as (_ & A2 & A3 & A4 & _).
+      unfold mstate_for in *. rewrite Hd in A2 A3 A4. simpl in *.
+      destruct (o_data o), (pre_data s0 a); simpl in *; congruence.
+    + simpl. destruct (q_none _ _ Hq a Eo) as [E0 _]. unfold pre_data. by rewrite E0.
+Qed.
+
+Definition upd_set (idx post pre : N) : gmap N N := if post =? pre then ∅ else {[idx := post]}.
+
+(* bal_net_changes, account fields, on the views of the finalised state: for EVERY address *)
+Theorem net_fields_all s0 j r idx L a :
+  Q s0 j → rAms r = true →
+  (∀ o, j_objs j !! a = Some o → is_Some (j_muts j !! a) → sd_guard s0 j a o) →
+  obal (L !! a) = ∅ → ononce (L !! a) = ∅ → ocode (L !! a) = ∅ →
+  let R := fin_bal r idx j L in
+  let post := pre_data (finalise r j) a in
+  let pre := pre_data s0 a in
+  obal (R !! a) = upd_set idx (a_bal post) (a_bal pre)
+  ∧ ononce (R !! a) = upd_set idx (a_nonce post) (a_nonce pre)
+  ∧ ocode (R !! a) = upd_set idx (a_code post) (a_code pre).
+Proof.
+  intros Hq Hr Hg L1 L2 L3 R post pre. subst R post pre.
+  destruct (fin_data s0 j r a Hq) as [F1 F2]. rewrite fin_bal_lookup.
+  destruct (j_muts j !! a) as [m|] eqn:Em; destruct (j_objs j !! a) as [o|] eqn:Eo.
+  - rewrite (F1 m o eq_refl eq_refl). assert (Emm : m = mstate_for a j) by (unfold mstate_for; by rewrite Em). subst m.
+    destruct (fin_rec_fields s0 j r idx a o (L !! a) Hq Eo Hr (Hg o eq_refl (ltac:(by eexists)))) as (-> & -> & ->).
+    rewrite L1 L2 L3. unfold upd_if, upd_set. repeat split; by case_match.
+  - rewrite F2; [intros [_ [? ?]]; done|]. rewrite L1 L2 L3. unfold upd_set. by rewrite !N.eqb_refl.
+  - rewrite F2; [intros [[? ?] _]; done|]. rewrite L1 L2 L3. unfold upd_set. by rewrite !N.eqb_refl.
+  - rewrite F2; [intros [[? ?] _]; done|]. rewrite L1 L2 L3. unfold upd_set. by rewrite !N.eqb_refl.
+Qed.
+
+(* ------------------------------------------------------------------ *)
+(* storage and reads on the views of the finalised state *)
+
+(* Guard of the net-change statement at Finalise, per address (established by the EVM:
+   only contracts created in the same transaction self-destruct — EIP-6780 plus the create
+   collision rules — and an empty account has no storage).  Without the storage part the
+   statement is FALSE: see [storage_unguarded_refuted]. *)
+Definition fin_guard (s0 j : jstate) (r : rules) (a : addr) : Prop :=
+  ∀ o, j_objs j !! a = Some o → is_Some (j_muts j !! a) →
+    (o_sd o = true → a_nonce (pre_data s0 a) = 0 ∧ a_code (pre_data s0 a) = 0 ∧ origin_blank j a o = true)
+    ∧ (o_sd o = true ∨ r158 r && obj_empty o = true → ∀ k, view_state s0 a k = 0).
+
+Lemma fin_guard_sd s0 j r a o :
+  fin_guard s0 j r a → j_objs j !! a = Some o → is_Some (j_muts j !! a) → sd_guard s0 j a o.
+Proof.
+  intros G Ho Hm Hs. destruct (G o Ho Hm) as [G1 _]. destruct (G1 Hs) as (N1 & N2 & N3).
+  split; [done|]. split; [done|]. unfold origin_blank in N3. destruct (o_origin o) as [x|]; [|done].
+  apply andb_true_iff in N3 as [N3 _]. apply andb_true_iff in N3 as [N3 N4].
+  by apply N.eqb_eq in N3, N4.
+Qed.
+
+Lemma rec_changes_wr idx m post oc :
+  owrites (rec_changes idx m post oc) = owrites oc ∧ oreads (rec_changes idx m post oc) = oreads oc.
+Proof.
+  unfold rec_changes.
+  destruct (s_bal m); destruct (s_nonce m); destruct (s_code m);
+    repeat match goal with |- context [?x =? ?y] => destruct (x =? y) end; by destruct oc.
+Qed.
+
+Lemma committed_fin r j a o k :
+  (a ∈ j_destruct (finalise r j) ↔ a ∈ j_destruct j) →
+  committed (finalise r j) a o k = committed j a o k.
+Proof.
+  intros H. unfold committed, db_stor. rewrite fin_db. destruct (o_pending o !! k); [done|].
+  by rewrite (bool_decide_ext _ _ H).
+Qed.
+
+Lemma fin_destruct_same r j a :
+  (∀ o, j_objs j !! a = Some o → a ∈ dom (j_muts j) → fin_del r o = false) →
+  a ∈ j_destruct (finalise r j) ↔ a ∈ j_destruct j.
+Proof.
+  intros H. rewrite fin_destruct. split; [|by left]. intros [?|(o & Ho & Hd & Hf)]; [done|].
+  by rewrite (H o Ho Hd) in Hf.
+Qed.
+
+Definition st_write (idx post pre : N) : option (gmap N word) :=
+  if post =? pre then None else Some {[idx := post]}.
+
+Theorem net_storage_all s0 j r idx L a k :
+  tx_boundary s0 → Q s0 j → wfc j → rAms r = true → fin_guard s0 j r a →
+  owrites (L !! a) = ∅ →
+  let R := fin_bal r idx j L in
+  let post := view_state (finalise r j) a k in
+  let pre := view_state s0 a k in
+  owrites (R !! a) !! k = st_write idx post pre
+  ∧ (k ∈ oreads (R !! a) ↔ k ∈ oreads (L !! a) ∧ post = pre).
+Proof.
+  intros T Hq W Hr G LW R post pre. subst R post pre. rewrite fin_bal_lookup.
+  unfold view_state at 1 3. rewrite fin_objs.
+  destruct (j_objs j !! a) as [o|] eqn:Eo.
+  2:{ (* no object before, none after *)
+    destruct (q_none _ _ Hq a Eo) as [E0 _]. unfold view_state. rewrite E0.
+    replace (match j_muts j !! a with Some _ => L !! a | None => L !! a end) with (L !! a) by (by destruct (j_muts j !! a)).
+    rewrite LW lookup_empty. unfold st_write. simpl. split; [done|]. tauto. }
+  pose proof (committed_pre s0 j a o k T Hq Eo) as Hpre.
+  destruct (q_obj _ _ Hq a o Eo) as (A1 & _ & _ & _ & A5 & A6).
+  destruct (j_muts j !! a) as [m|] eqn:Em.
+  2:{ (* untouched object *)
+    rewrite bool_decide_false; [by apply not_elem_of_dom|].
+    rewrite LW lookup_empty. unfold get_state.
+    rewrite A5; [unfold in_muts; rewrite Em; by apply bool_decide_eq_false; intros []|].
+    rewrite lookup_empty committed_fin.
+    { apply fin_destruct_same. intros o' _ Hd. by apply not_elem_of_dom in Em. }
+    rewrite Hpre. unfold st_write. rewrite N.eqb_refl. split; [done|]. tauto. }
+  rewrite bool_decide_true; [by apply elem_of_dom|].
+  destruct (G o Eo (ltac:(by eexists))) as [G1 G2].
+  unfold fin_rec. destruct (rec_changes_wr idx m (fin_obj r o)
+    (if o_sd o then L !! a else if r158 r && obj_empty o then L !! a else fin_writes idx (o_dirty o) (L !! a))) as [-> ->].
+  unfold fin_obj. rewrite Hr.
+  destruct (o_sd o) eqn:Es.
+  { (* self-destructed: nothing recorded; storage was and is blank *)
+    rewrite (G2 (or_introl eq_refl) k) LW lookup_empty.
+    destruct (G1 eq_refl) as (_ & _ & Hob).
+    assert (Hz : match (if negb (a_bal (o_data o) =? 0)
+                        then Some (new_object (o_origin o) <| o_data ::= λ d, d <| a_bal := a_bal (o_data o) |> |>) else None) with
+                 | Some o0 => get_state (finalise r j) a o0 k | None => 0 end = 0).
+    { destruct (negb (a_bal (o_data o) =? 0)); [|done].
+      set (no := new_object (o_origin o) <| o_data ::= λ d, d <| a_bal := a_bal (o_data o) |> |>).
+      assert (Hnd : o_dirty no = ∅) by done. assert (Hnp : o_pending no = ∅) by done.
+      unfold get_state, committed, db_stor. rewrite Hnd Hnp !lookup_empty fin_db.
+      case_bool_decide; [done|]. unfold origin_blank in Hob. destruct (o_origin o) as [x|] eqn:Eor.
+      - apply andb_true_iff in Hob as [_ Hob]. destruct (j_db j !! a) as [d|]; [|done].
+        apply bool_decide_eq_true in Hob. rewrite Hob. done.
+      - destruct (A6 eq_refl) as [Hx|Hd].
+        + exfalso. apply H. apply fin_destruct. left. by rewrite (q_destruct _ _ Hq).
+        + by rewrite (q_db _ _ Hq) Hd. }
+    rewrite Hz. unfold st_write. simpl. split; [done|]. tauto. }
+  destruct (r158 r && obj_empty o) eqn:Ee.
+  { (* deleted as empty: nothing recorded; storage was blank *)
+    rewrite (G2 (or_intror eq_refl) k) LW lookup_empty. unfold st_write. simpl. split; [done|]. tauto. }
+  (* kept: obj.finalise *)
+  destruct (fin_writes_spec idx (o_dirty o) (L !! a) k) as [-> ->]. rewrite LW lookup_empty.
+  assert (Hpost : get_state (finalise r j) a (obj_finalise o) k =
+                  match o_dirty o !! k with Some v => v | None => committed j a o k end).
+  { unfold get_state. replace (o_dirty (obj_finalise o)) with (∅ : gmap slot word) by (by destruct o).
+    rewrite lookup_empty. unfold committed at 1. replace (o_pending (obj_finalise o)) with (o_dirty o ∪ o_pending o) by (by destruct o).
+    rewrite lookup_union. destruct (o_dirty o !! k) as [v|] eqn:Ed; simpl.
+    - by destruct (o_pending o !! k).
+    - rewrite left_id. fold (committed (finalise r j) a o k). apply committed_fin.
+      apply fin_destruct_same. intros o' Ho' _. rewrite Eo in Ho'. injection Ho' as <-.
+      unfold fin_del, fin_obj. by rewrite Hr Es Ee. }
+  rewrite Hpost -Hpre. destruct (o_dirty o !! k) as [v|] eqn:Ed; simpl.
+  - pose proof (wc_dirty _ W a o k v Eo Ed) as Hne. unfold st_write.
+    destruct (v =? committed j a o k) eqn:Ev; [by apply N.eqb_eq in Ev|].
+    split; [by rewrite insert_empty|]. split.
+    + intros [_ Hn]%elem_of_difference. exfalso. apply Hn. apply elem_of_dom. by eexists.
+    + by intros [_ ?].
+  - unfold st_write. rewrite N.eqb_refl. split; [done|]. split.
+    + intros [? _]%elem_of_difference. done.
+    + intros [? _]. apply elem_of_difference. split; [done|]. by apply not_elem_of_dom.
+Qed.
+
+(* ------------------------------------------------------------------ *)
+(* during the body only reads are recorded; the recorded slot reads are exactly the keys
+   passed to stateObject.GetCommittedState *)
+Definition reads_only (L : cbal) : Prop :=
+  ∀ a, owrites (L !! a) = ∅ ∧ obal (L !! a) = ∅ ∧ ononce (L !! a) = ∅ ∧ ocode (L !! a) = ∅.
+
+(* the keys a call passes to GetCommittedState (SetState always; GetState unless the slot is
+   dirty; GetCommittedState; the latter two only when the account exists) *)
+Definition op_touch (j : jstate) (o : bop) : gset (addr * slot) :=
+  match o with
+  | BOp (OSetState a k _) => {[(a, k)]}
+  | BGet (QState a k) =>
+      match j_objs j !! a with
+      | Some o => match o_dirty o !! k with Some _ => ∅ | None => {[(a, k)]} end
+      | None => ∅
+      end
+  | BGet (QCommitted a k) => match j_objs j !! a with Some _ => {[(a, k)]} | None => ∅ end
+  | _ => ∅
+  end.
+Fixpoint touched (b : bstate) (ops : list bop) : gset (addr * slot) :=
+  match ops with
+  | [] => ∅
+  | o :: rest => op_touch (b_j b) o ∪ touched (step_b b o).1 rest
+  end.
+
+Definition rd_ext (L L' : cbal) (T : gset (addr * slot)) : Prop :=
+  reads_only L' ∧ ∀ a k, k ∈ oreads (L' !! a) ↔ k ∈ oreads (L !! a) ∨ (a, k) ∈ T.
+
+Lemma rd_refl L : reads_only L → rd_ext L L ∅.
+Proof. intros H. split; [done|]. intros a k. set_solver. Qed.
+
+Lemma rd_trans L L1 L2 T1 T2 : rd_ext L L1 T1 → rd_ext L1 L2 T2 → rd_ext L L2 (T1 ∪ T2).
+Proof. intros [_ H1] [R2 H2]. split; [done|]. intros a k. rewrite H2 H1. set_solver. Qed.
+
+Lemma on_acct_lookup a f L b :
+  on_acct a f L !! b = match decide (b = a) with left _ => Some (f (default ca0 (L !! a))) | right _ => L !! b end.
+Proof.
+  unfold on_acct. destruct (decide (b = a)) as [->|Hne].
+  - by rewrite lookup_partial_alter.
+  - by rewrite lookup_partial_alter_ne.
+Qed.
+
+Lemma proj_default (oc : option caccess) :
+  ca_writes (default ca0 oc) = owrites oc ∧ ca_reads (default ca0 oc) = oreads oc ∧
+  ca_bal (default ca0 oc) = obal oc ∧ ca_nonce (default ca0 oc) = ononce oc ∧ ca_code (default ca0 oc) = ocode oc.
+Proof. by destruct oc. Qed.
+
+Lemma rd_account_read a L : reads_only L → rd_ext L (account_read a L) ∅.
+Proof.
+  intros H. unfold account_read. split.
+  - intros b. rewrite on_acct_lookup. destruct (decide (b = a)) as [->|]; [|apply H].
+    unfold owrites, oreads, obal, ononce, ocode. simpl.
+    destruct (proj_default (L !! a)) as (-> & _ & -> & -> & ->). apply H.
+  - intros b k. rewrite on_acct_lookup. destruct (decide (b = a)) as [->|]; [|set_solver].
+    unfold oreads at 1. simpl. destruct (proj_default (L !! a)) as (_ & -> & _). set_solver.
+Qed.
+
+Lemma rd_storage_read a k L : reads_only L → rd_ext L (storage_read a k L) {[(a, k)]}.
+Proof.
+  intros H. unfold storage_read.
+  assert (Hw : ca_writes (default ca0 (L !! a)) !! k = None).
+  { destruct (proj_default (L !! a)) as (-> & _). destruct (H a) as (-> & _). done. }
+  split.
+  - intros b. rewrite on_acct_lookup. destruct (decide (b = a)) as [->|]; [|apply H].
+    unfold ca_storage_read. rewrite Hw. unfold owrites, oreads, obal, ononce, ocode. simpl.
+    destruct (proj_default (L !! a)) as (E1 & _ & E3 & E4 & E5).
+    destruct (default ca0 (L !! a)); simpl in *. subst. apply H.
+  - intros b k'. rewrite on_acct_lookup. destruct (decide (b = a)) as [->|Hne]; [|set_solver].
+    unfold ca_storage_read. rewrite Hw. unfold oreads at 1. simpl.
+    destruct (proj_default (L !! a)) as (_ & E2 & _).
+    destruct (default ca0 (L !! a)); simpl in *. subst. set_solver.
+Qed.
+
+Lemma rd_revert_reads L es :
+  reads_only L →
+  rd_ext L (foldl (λ L e, match revert_reads e with Some a => account_read a L | None => L end) L es) ∅.
+Proof.
+  revert L. induction es as [|e es IH]; intros L H; simpl; [by apply rd_refl|].
+  destruct (revert_reads e) as [a|]; [|by apply IH].
+  pose proof (rd_account_read a L H) as H1. pose proof (IH _ (proj1 H1)) as H2.
+  pose proof (rd_trans _ _ _ _ _ H1 H2) as H3. by rewrite left_id_L in H3.
+Qed.
+
+Local Ltac rdar H := eapply rd_account_read; exact H.
+
+Lemma rd_op_reads j o L : reads_only L → rd_ext L (op_reads j o L) (op_touch j (BOp o)).
+Proof.
+  intros H. destruct o; simpl; try (by apply rd_refl); try (by apply rd_account_read).
+  - pose proof (rd_account_read a L H) as H1. pose proof (rd_storage_read a k _ (proj1 H1)) as H2.
+    pose proof (rd_trans _ _ _ _ _ H1 H2) as H3. by rewrite left_id_L in H3.
+  - destruct (find_revision id (j_revs j)) as [[idx rest]|]; [|by apply rd_refl]. by apply rd_revert_reads.
+Qed.
+
+Lemma rd_get_reads j q L : reads_only L → rd_ext L (get_reads j q L) (op_touch j (BGet q)).
+Proof.
+  intros H.
+  assert (Hs : ∀ a k, rd_ext L (storage_read a k (account_read a L)) {[(a, k)]}).
+  { intros a k. pose proof (rd_account_read a L H) as H1. pose proof (rd_storage_read a k _ (proj1 H1)) as H2.
+    pose proof (rd_trans _ _ _ _ _ H1 H2) as H3. by rewrite left_id_L in H3. }
+  destruct q; simpl; try (by apply rd_refl); try (by apply rd_account_read).
+  - destruct (j_objs j !! a) as [o|]; [|by apply rd_account_read].
+    destruct (o_dirty o !! k); [by apply rd_account_read|apply Hs].
+  - destruct (j_objs j !! a) as [o|]; [apply Hs|by apply rd_account_read].
+Qed.
+
+(* the body keeps the list open, keeps blockAccessIndex, and extends the reads by [touched] *)
+Lemma rec_set_j f b j1 :
+  b_acc (rec f (b <| b_j := j1 |>)) = f <$> b_acc b ∧ b_idx (rec f (b <| b_j := j1 |>)) = b_idx b.
+Proof. by destruct b. Qed.
+Lemma rec_plain f b : b_acc (rec f b) = f <$> b_acc b ∧ b_idx (rec f b) = b_idx b.
+Proof. by destruct b. Qed.
+
+Lemma step_b_reads b o L :
+  body_op (b_j b) o → b_acc b = Some L → reads_only L →
+  ∃ L', b_acc (step_b b o).1 = Some L' ∧ rd_ext L L' (op_touch (b_j b) o) ∧ b_idx (step_b b o).1 = b_idx b.
+Proof.
+  intros Hb Ha Hr. destruct o as [o| | |q]; try done.
+  - unfold step_b. destruct o; try done; cbv beta iota zeta;
+      destruct (step_j (b_j b) _) as [j1 w]; cbn [fst];
+      match goal with |- context [rec ?f (b <| b_j := j1 |>)] => destruct (rec_set_j f b j1) as [-> ->] end;
+      rewrite Ha; cbn [fmap option_fmap option_map]; eexists; (split; [reflexivity|]); (split; [|reflexivity]);
+      match goal with |- rd_ext _ (op_reads _ ?o _) _ => apply (rd_op_reads (b_j b) o L Hr) end.
+  - unfold step_b. cbn [fst]. destruct (rec_plain (get_reads (b_j b) q) b) as [-> ->]. rewrite Ha. simpl.
+    eexists. split; [reflexivity|]. split; [|done]. by apply rd_get_reads.
+Qed.
+
+Lemma run_b_reads b ops L :
+  body_ok b ops → b_acc b = Some L → reads_only L →
+  ∃ L', b_acc (run_b b ops) = Some L' ∧ rd_ext L L' (touched b ops) ∧ b_idx (run_b b ops) = b_idx b.
+Proof.
+  revert b L. induction ops as [|o rest IH]; intros b L Hb Ha Hr.
+  - exists L. split; [done|]. split; [by apply rd_refl|done].
+  - destruct Hb as [H1 H2]. destruct (step_b_reads b o L H1 Ha Hr) as (L1 & A1 & R1 & I1).
+    destruct (IH _ L1 H2 A1 (proj1 R1)) as (L2 & A2 & R2 & I2).
+    exists L2. simpl. split; [done|]. split; [by eapply rd_trans|congruence].
+Qed.
+
+(* ------------------------------------------------------------------ *)
+(* SetTxContext and Prepare do not touch the part of the state the list depends on *)
+Lemma al_add_address_core a j : core_eq (al_add_address a j).1 j.
+Proof. unfold al_add_address. destruct (j_ala j !! a); simpl; [done|]. by destruct j. Qed.
+
+Lemma al_add_slot_core a k j : core_eq (al_add_slot a k j).1.1 j.
+Proof.
+  unfold al_add_slot. destruct (j_ala j !! a) as [idx|]; simpl; [|by destruct j].
+  destruct (idx =? -1)%Z; simpl; [by destruct j|].
+  destruct (j_als j !! Z.to_nat idx); simpl; [|by destruct j].
+  case_bool_decide; simpl; [done|by destruct j].
+Qed.
+
+Lemma prepare_al_core r s c d l j : core_eq (prepare_al r s c d l j) j.
+Proof.
+  unfold prepare_al.
+  set (j0 := j <| j_ala := ∅ |> <| j_als := [] |>).
+  assert (H0 : core_eq j0 j) by (by destruct j).
+  set (j1 := (al_add_address s j0).1).
+  assert (H1 : core_eq j1 j) by (eapply core_eq_trans; [apply al_add_address_core|done]).
+  set (j2 := match d with Some d0 => (al_add_address d0 j1).1 | None => j1 end).
+  assert (H2 : core_eq j2 j).
+  { subst j2. destruct d; [|done]. eapply core_eq_trans; [apply al_add_address_core|done]. }
+  set (j3 := foldl _ j2 l).
+  assert (H3 : core_eq j3 j).
+  { subst j3. clearbody j2. clear -H2. revert j2 H2. induction l as [|e l IH]; intros j2 H2; simpl; [done|].
+    apply IH. set (ja := (al_add_address e.1 j2).1).
+    assert (Ha : core_eq ja j) by (eapply core_eq_trans; [apply al_add_address_core|done]).
+    clearbody ja. clear H2. revert ja Ha. induction (e.2) as [|k ks IHk]; intros ja Ha; simpl; [done|].
+    apply IHk. eapply core_eq_trans; [apply al_add_slot_core|done]. }
+  destruct (rShanghai r); [|done]. eapply core_eq_trans; [apply al_add_address_core|done].
+Qed.
+
+Lemma tx_start_core j th ti r s c d l : core_eq (step_j j (OTxStart th ti r s c d l)).1 j.
+Proof.
+  simpl. set (j1 := j <| j_th := th |> <| j_ti := ti |>).
+  assert (H1 : core_eq j1 j) by (by destruct j).
+  set (j2 := if r2929 r then prepare_al r s c d l j1 else j1).
+  assert (H2 : core_eq j2 j).
+  { subst j2. destruct (r2929 r); [|done]. eapply core_eq_trans; [apply prepare_al_core|done]. }
+  clearbody j2. by destruct j2.
+Qed.
+
+(* ------------------------------------------------------------------ *)
+(* bal_net_changes: one whole transaction on the recording StateDB *)
+Definition tx_ops (th ti idx : N) (r : rules) (s c : addr) (d : option addr) (l : list (addr * list slot))
+           (body : list bop) : list bop :=
+  BSetTx th ti idx :: BPrepare r s c d l :: body.
+
+Theorem bal_net_changes_tx b0 th ti idx r s c d l body :
+  tx_boundary (b_j b0) → rAms r = true →
+  let b1 := run_b b0 [BSetTx th ti idx; BPrepare r s c d l] in
+  body_ok b1 body →
+  let b2 := run_b b1 body in
+  (∀ a, fin_guard (b_j b0) (b_j b2) r a) →
+  let b3 := (step_b b2 (BOp (OFinalise r))).1 in
+  ∃ R, (step_b b2 (BOp (OFinalise r))).2 = BFin (Some R) ∧ b_acc b3 = None ∧
+  ∀ a,
+    let pre := pre_data (b_j b0) a in let post := pre_data (b_j b3) a in
+    obal (R !! a) = upd_set idx (a_bal post) (a_bal pre)
+    ∧ ononce (R !! a) = upd_set idx (a_nonce post) (a_nonce pre)
+    ∧ ocode (R !! a) = upd_set idx (a_code post) (a_code pre)
+    ∧ ∀ k, owrites (R !! a) !! k = st_write idx (view_state (b_j b3) a k) (view_state (b_j b0) a k)
+           ∧ (k ∈ oreads (R !! a) ↔ (a, k) ∈ touched b1 body ∧ view_state (b_j b3) a k = view_state (b_j b0) a k).
+Proof.
+  intros T Hr b1 Hb b2 G b3.
+  set (s0 := b_j b0) in *.
+  assert (H1 : core_eq (b_j b1) s0 ∧ b_acc b1 = Some ∅ ∧ b_idx b1 = idx).
+  { subst b1. unfold run_b. simpl. destruct b0 as [j0 acc0 idx0]; simpl in *. rewrite Hr. split; [|done].
+    pose proof (tx_start_core (j0 <| j_th := th |> <| j_ti := ti |>) th ti r s c d l) as H. simpl in H.
+    eapply core_eq_trans; [exact H|]. subst s0. by destruct j0. }
+  destruct H1 as (Hc & Ha & Hi).
+  destruct (stash_invariant s0 b1 body T Hc Hb) as [Hq W]. fold b2 in Hq, W.
+  assert (R0 : reads_only ∅).
+  { intros a. by rewrite lookup_empty. }
+  destruct (run_b_reads b1 body ∅ Hb Ha R0) as (L & HL & [RL RT] & HI). fold b2 in HL, HI.
+  exists (fin_bal r idx (b_j b2) L).
+  assert (E : step_b b2 (BOp (OFinalise r)) =
+              (b2 <| b_j := finalise r (b_j b2) |> <| b_acc := None |>, BFin (Some (fin_bal r idx (b_j b2) L)))).
+  { simpl. rewrite Hr HL HI Hi. done. }
+  subst b3. rewrite E. split; [done|]. split; [by destruct b2|].
+  replace (b_j (b2 <| b_j := finalise r (b_j b2) |> <| b_acc := None |>, BFin (Some (fin_bal r idx (b_j b2) L))).1)
+    with (finalise r (b_j b2)) by (by destruct b2).
+  intros a pre post. destruct (RL a) as (L1 & L2 & L3 & L4).
+  destruct (net_fields_all s0 (b_j b2) r idx L a Hq Hr) as (F1 & F2 & F3); try done.
+  { intros o Ho Hm. by apply (fin_guard_sd s0 (b_j b2) r a o (G a) Ho Hm). }
+  split; [exact F1|]. split; [exact F2|]. split; [exact F3|].
+  intros k. destruct (net_storage_all s0 (b_j b2) r idx L a k T Hq W Hr (G a) L1) as [S1 S2].
+  split; [exact S1|]. rewrite S2 RT. rewrite lookup_empty. set_solver.
+Qed.
+
+(* ------------------------------------------------------------------ *)
+(* Finalise re-establishes the transaction boundary: the per-transaction theorem chains
+   over all transactions of a block *)
+Lemma fin_cleared r j : j_entries (finalise r j) = [] ∧ j_muts (finalise r j) = ∅.
+Proof. unfold finalise, clear_internal. by destruct j. Qed.
+
+Lemma fin_obj_shape r o o' :
+  fin_obj r o = Some o' → o_dirty o' = ∅ ∧ o_origin o' = o_origin o.
+Proof.
+  unfold fin_obj. destruct (rAms r).
+  - destruct (o_sd o).
+    + destruct (negb (a_bal (o_data o) =? 0)); [|done]. intros [= <-]. done.
+    + destruct (r158 r && obj_empty o); [done|]. intros [= <-]. by destruct o.
+  - destruct (o_sd o || r158 r && obj_empty o); [done|]. intros [= <-]. by destruct o.
+Qed.
+
+Theorem tx_boundary_finalise s0 j r : Q s0 j → wfc j → tx_boundary (finalise r j).
+Proof.
+  intros Hq W. destruct (fin_cleared r j) as [E M].
+  assert (HD : ∀ a o', j_objs (finalise r j) !! a = Some o' → o_dirty o' = ∅).
+  { intros a o'. rewrite fin_objs. destruct (j_objs j !! a) as [o|] eqn:Eo; [|done].
+    case_bool_decide as Hd.
+    - intros H. by apply fin_obj_shape in H as [? _].
+    - intros [= <-]. destruct (q_obj _ _ Hq a o Eo) as (_ & _ & _ & _ & A5 & _). apply A5.
+      rewrite in_muts_dom. by apply bool_decide_eq_false. }
+  split; [|done|done|exact HD|].
+  - split.
+    + intros a m. by rewrite M lookup_empty.
+    + intros a o k d Ho Hd. by rewrite (HD a o Ho) lookup_empty in Hd.
+    + intros a. rewrite fin_objs fin_db. destruct (j_objs j !! a) as [o|] eqn:Eo.
+      * case_bool_decide as Hd; [|done]. intros Hf. left. apply fin_destruct. right. exists o.
+        split; [done|]. split; [done|]. unfold fin_del. by rewrite Hf.
+      * intros _. destruct (wc_eager _ W a Eo) as [?|?]; [left; apply fin_destruct; by left|by right].
+  - intros a o'. rewrite fin_objs fin_db. destruct (j_objs j !! a) as [o|] eqn:Eo; [|done].
+    destruct (q_obj _ _ Hq a o Eo) as (_ & _ & _ & _ & _ & A6).
+    assert (Hor : o_origin o = None → a ∈ j_destruct (finalise r j) ∨ j_db j !! a = None).
+    { intros Hn. destruct (A6 Hn) as [?|?]; [left; apply fin_destruct; left; by rewrite (q_destruct _ _ Hq)|right; by rewrite (q_db _ _ Hq)]. }
+    case_bool_decide as Hd.
+    + intros H Hn. apply fin_obj_shape in H as [_ Ho']. apply Hor. congruence.
+    + intros [= <-]. exact Hor.
+Qed.
+
+(* ------------------------------------------------------------------ *)
+(* the storage guard cannot be dropped: an empty account that has storage is deleted by
+   EIP-158 when touched; its slot goes from 5 to 0 and nothing is recorded *)
+Definition db_empty_with_storage : database :=
+  {[ 1 := {| d_acct := acct0; d_stor := {[ 0 := 5 ]} |} ]}.
+Definition unguarded_ops : list bop :=
+  [BSetTx 1 0 1; BPrepare r_ams 1 2 None []; BOp (OAddBalance 1 0)].
+Definition unguarded_check : bool :=
+  let b0 := init_b db_empty_with_storage in
+  let b2 := run_b b0 unguarded_ops in
+  match step_b b2 (BOp (OFinalise r_ams)) with
+  | (b3, BFin (Some R)) =>
+      (view_state (b_j b0) 1 0 =? 5) && (view_state (b_j b3) 1 0 =? 0)
+      && match owrites (R !! 1) !! 0 with None => true | Some _ => false end
+      && bool_decide (is_Some (R !! 1))
+  | _ => false
+  end.
